@@ -175,11 +175,15 @@ def call(draw, text_mode, ops, stream=None):
         c['n'] = draw(st.integers(1, 3))
     elif op == 'setbuf':
         c['v'] = draw(streams(text_mode, 5))
+    elif op == 'set_sws':
+        c['v'] = draw(st.sampled_from([None, 1, 2, 3, 5, 20]))
+    elif op == 'set_maxread':
+        c['v'] = draw(st.sampled_from([1, 2, 3, 7, 2000]))
     return c
 
 
 ALL_OPS = ['expect', 'expect', 'expect', 'expect_exact', 'expect_exact', 'expect_list', 'expect_c',
-           'read', 'readline', 'readlines', 'iter', 'setbuf']
+           'read', 'readline', 'readlines', 'iter', 'setbuf', 'set_sws', 'set_maxread']
 EXPECT_OPS = ['expect', 'expect', 'expect_exact', 'expect_exact', 'expect_list', 'expect_c']
 
 
@@ -360,6 +364,7 @@ def execute(case):
     classes escaping pexpect (C04 territory, but fatal for every oracle)."""
     text_mode = case['enc'] is not None
     sp, mo, clock = make_pair(case)
+    cur_sws = case['sws']          # the instance attribute may be changed in mid-history
     with scripted.virtual_time(clock):
         for i, c in enumerate(case['calls']):
             st_ = Step()
@@ -375,7 +380,7 @@ def execute(case):
                 with guard('call %d %s' % (i, op), allow=(EOF, TIMEOUT)):
                     if op in ('expect', 'expect_list', 'expect_c', 'expect_exact'):
                         exact = op == 'expect_exact'
-                        W = eff_window(c['w'], case['sws'])
+                        W = eff_window(c['w'], cur_sws)
                         st_.W = W
                         entries = model_entries(c['pats'], text_mode, exact)
                         st_.entries = entries
@@ -394,30 +399,30 @@ def execute(case):
                         mret = m.index
                     elif op == 'read':
                         n = c['n']
-                        st_.W = case['sws']
+                        st_.W = cur_sws
                         if n == 0:
                             mret = mo.empty()
                         elif n < 0:
-                            m = mo.expect(['EOF'], case['sws'])
+                            m = mo.expect(['EOF'], cur_sws)
                             mret = m.before if m.kind == 'eof' else None
                         else:
                             ent = [('re', re.compile(conv('.{%d}' % n, text_mode), re.DOTALL)), 'EOF']
-                            m = mo.expect(ent, case['sws'])
+                            m = mo.expect(ent, cur_sws)
                             mret = m.after if m.kind == 'match' else (m.before if m.kind == 'eof' else None)
                         ret = sp.read(n)
                     elif op == 'readline':
-                        st_.W = case['sws']
+                        st_.W = cur_sws
                         crlf = conv('\r\n', text_mode)
-                        m = mo.expect([('re', re.compile(crlf, re.DOTALL)), 'EOF'], case['sws'])
+                        m = mo.expect([('re', re.compile(crlf, re.DOTALL)), 'EOF'], cur_sws)
                         mret = (m.before + crlf) if m.kind == 'match' else (m.before if m.kind == 'eof' else None)
                         ret = sp.readline()
                     elif op in ('readlines', 'iter'):
-                        st_.W = case['sws']
+                        st_.W = cur_sws
                         crlf = conv('\r\n', text_mode)
                         limit = c.get('n') if op == 'iter' else None
                         lines = []
                         while limit is None or len(lines) < limit:
-                            m = mo.expect([('re', re.compile(crlf, re.DOTALL)), 'EOF'], case['sws'])
+                            m = mo.expect([('re', re.compile(crlf, re.DOTALL)), 'EOF'], cur_sws)
                             if m.kind == 'timeout':
                                 lines = None
                                 break
@@ -440,6 +445,12 @@ def execute(case):
                         v = conv(c['v'], text_mode)
                         mo.set_buffer(v)
                         sp.buffer = v
+                    elif op == 'set_sws':
+                        cur_sws = c['v']
+                        sp.searchwindowsize = c['v']
+                    elif op == 'set_maxread':
+                        sp.maxread = c['v']
+                        mo.maxread = c['v']
                     else:
                         raise ValueError(op)
             except EOF as e:
